@@ -10,30 +10,50 @@ import (
 var opText = map[string]string{"is": "is", "isnt": "isnt", "lt": "<", "lte": "<=", "gt": ">", "gte": ">=",
 	"add": "+", "sub": "-", "mul": "*"}
 
-func (e *Ex) text() string {
+// text renders an expression with as few parentheses as the grammar allows at the top level
+// (the optimizer derives fixed values and index ranges from the top-level "and" terms; it does
+// not look through parentheses), nested operators are parenthesised
+func (e *Ex) text() string { return e.render(true) }
+
+func (e *Ex) atom() bool { return e.K == "const" || e.K == "col" }
+
+func (e *Ex) render(top bool) string {
+	wrap := func(s string) string {
+		if top {
+			return s
+		}
+		return "(" + s + ")"
+	}
 	switch e.K {
 	case "const":
 		return e.V.lit()
 	case "col":
 		return e.C
 	case "cmp", "arith":
-		return "(" + e.A.text() + " " + opText[e.O] + " " + e.B.text() + ")"
-	case "and", "or":
+		return wrap(e.A.render(false) + " " + opText[e.O] + " " + e.B.render(false))
+	case "and":
 		var parts []string
 		for _, x := range e.Es {
-			parts = append(parts, x.text())
+			// simple terms of a top-level "and" stay bare
+			parts = append(parts, x.render(top && (x.K == "cmp" || x.K == "in" || x.K == "not")))
 		}
-		return "(" + strings.Join(parts, " "+e.K+" ") + ")"
+		return wrap(strings.Join(parts, " and "))
+	case "or":
+		var parts []string
+		for _, x := range e.Es {
+			parts = append(parts, x.render(top && (x.K == "cmp" || x.K == "in")))
+		}
+		return wrap(strings.Join(parts, " or "))
 	case "not":
-		return "(not " + e.A.text() + ")"
+		return wrap("not " + e.A.render(false))
 	case "in":
 		var parts []string
 		for _, v := range e.Vs {
 			parts = append(parts, v.lit())
 		}
-		return "(" + e.A.text() + " in (" + strings.Join(parts, ", ") + "))"
+		return wrap(e.A.render(false) + " in (" + strings.Join(parts, ", ") + ")")
 	case "if":
-		return "(" + e.Cd.text() + " ? " + e.A.text() + " : " + e.B.text() + ")"
+		return "(" + e.Cd.render(false) + " ? " + e.A.render(false) + " : " + e.B.render(false) + ")"
 	}
 	panic("bad expr " + e.K)
 }
